@@ -165,7 +165,8 @@ static std::string run_search(const Case &c, vf::Ctx &ctx) {
   const pt::PPort *single = nullptr;
   int ctable = -1;
   if (c.location.empty() || c.location == "/") { children = &c.tree.tables[0]; ctable = 0; }
-  else {
+  bool lookup_ambiguous = false;
+  if (!(c.location.empty() || c.location == "/")) {
     // descend by the generated location (it was built from sub-tree names; each component ends with '/')
     std::string rest = c.location[0] == '/' ? c.location.substr(1) : c.location;   // with or without the leading slash
     int table = 0;
@@ -175,6 +176,18 @@ static std::string run_search(const Case &c, vf::Ctx &ctx) {
       for (auto &p : tb.ports) {
         refmatch::Pattern pat = refmatch::parse(p.name);
         if (refmatch::path_matches(pat, rest)) { hit = &p; break; }   // first in table order, as a lookup does
+      }
+      // is the lookup at this level ambiguous by the tree itself? (several ports answer to the component, or a sibling's
+      // name and the component are prefixes of each other - the lookup's documented prefix rule then decides, not the tree)
+      {
+        std::string comp = rest.substr(0, rest.find('/'));
+        int related = 0;
+        for (auto &p : tb.ports) {
+          std::string nm = p.name.substr(0, p.name.find_first_of(":/#"));
+          refmatch::Pattern pat = refmatch::parse(p.name);
+          if (refmatch::path_matches(pat, rest) || (!nm.empty() && !comp.empty() && (comp.compare(0, nm.size(), nm) == 0 || nm.compare(0, comp.size(), comp) == 0))) related++;
+        }
+        if (related > 1 || (!hit && related > 0)) lookup_ambiguous = true;
       }
       if (!hit) break;
       if (hit->subtree() && pt::table_level(table) < 2) {
@@ -194,7 +207,10 @@ static std::string run_search(const Case &c, vf::Ctx &ctx) {
     bool same_single = single ? (ap && !ap->ports && std::string(ap->name) == single->name) : (!ap || ap->ports != nullptr || c.location.empty() || c.location == "/");
     // (the library's lookup is by prefix and takes the first of equally named ports; where it resolves the location
     //  differently from the model - duplicates, prefix siblings - the lookup, not the search, is ambiguous)
-    if (got_children != want_children || !same_single) { ctx.count("search.location_lookup_ambiguous(skipped)"); return ""; }
+    if (got_children != want_children || !same_single) {
+      if (lookup_ambiguous) { ctx.count("search.location_lookup_ambiguous(skipped)"); return ""; }
+      return "the location \"" + c.location + "\" is resolved to " + (ap ? std::string("port \"") + ap->name + "\"" : std::string("nothing")) + ", the tree has " + (single ? "the leaf \"" + single->name + "\"" : ctable >= 0 ? std::string("a sub-tree") : std::string("nothing")) + " there (no sibling is a prefix of another on that path) | " + c.describe();
+    }
   }
   struct E { std::string name, meta; bool has; };
   std::vector<E> exp;
